@@ -192,7 +192,7 @@ func bareUpdates(s *hx.Seq) {
 func registerItems(h *hx.H) {
 	h.Seq("servers/update-without-resource", bareUpdates)
 	h.Seq("items", func(s *hx.Seq) {
-		var rp struct{ UpdatesOnly bool }
+		var rp struct{ UpdatesOnly, Streams bool }
 		run := func(uo bool) {
 			name := fmt.Sprintf("items/hail/get-update-pull by id/updates_only=%v", uo)
 			res := verifrt.RunOnce(nil, false, hailItemBody(name, uo))
@@ -210,8 +210,29 @@ func registerItems(h *hx.H) {
 				s.Fail(res.Status+" "+name, res.Msg, map[string]any{"UpdatesOnly": uo})
 			}
 		}
+		runStreams := func(uo bool) {
+			name := fmt.Sprintf("streams/onoff/other-streams-come-and-go/updates_only=%v", uo)
+			res := verifrt.RunOnce(nil, false, leaverHistoryBody(name, uo))
+			s.Eval(1)
+			s.Trans(7)
+			s.State(name)
+			s.Distinct(name)
+			for _, l := range res.Log {
+				if strings.HasPrefix(l, "FAIL ") {
+					k, m, _ := strings.Cut(strings.TrimPrefix(l, "FAIL "), " ## ")
+					s.Fail(k, m, map[string]any{"UpdatesOnly": uo, "Streams": true})
+				}
+			}
+			if res.Status != "ok" {
+				s.Fail(res.Status+" "+name, res.Msg, map[string]any{"UpdatesOnly": uo, "Streams": true})
+			}
+		}
 		if s.Replaying(&rp) {
-			run(rp.UpdatesOnly)
+			if rp.Streams {
+				runStreams(rp.UpdatesOnly)
+			} else {
+				run(rp.UpdatesOnly)
+			}
 			return
 		}
 		if !s.Own() {
@@ -219,6 +240,8 @@ func registerItems(h *hx.H) {
 		}
 		run(false)
 		run(true)
+		runStreams(false)
+		runStreams(true)
 		s.Sample(map[string]any{"history": "PullHail(h1) ; UpdateHail(state=DEPARTED, mask state) ; UpdateHail(mask no_such_field) ; UpdateHail(state=ARRIVED) ; UpdateHail(mask no_such_field), a Get after each", "meaning": "the hail h1 (arrived long ago) behind wrapper -> router -> wrapper is one register: responses equal the next Get, accepted updates appear on the open stream once, rejected ones change nothing"})
 	})
 }
